@@ -16,7 +16,9 @@ ALL_DTYPES = CANON_DTYPES + TUPLES
 INVALID_DTYPES = ["integer", "double", "0-tuple", "tuple", "x", "-1-tuple", "2-tuples", ""]
 
 PYTYPE = {"string": str, "text": str, "url": str, "person": str, "int": int, "float": float,
-          "boolean": bool, "date": dt.date, "time": dt.time, "datetime": dt.datetime}
+          "boolean": bool, "date": dt.date, "time": dt.time, "datetime": dt.datetime,
+          # the two documented short forms are stored as given (the repository's tests pin this)
+          "str": str, "bool": bool}
 
 
 # ------------------------------------------------------------------------------------
@@ -55,6 +57,11 @@ INPUT = st.one_of(
     st.lists(st.lists(st.sampled_from(["1", "2", "a", " b ", "3;4", ""]).map(lambda v: enc("str", v)),
                       min_size=1, max_size=3).map(lambda v: enc("list", v)),
              min_size=1, max_size=3).map(lambda v: enc("list", v)),
+    # a convertible first member (the dtype is inferred from it) followed by one whose conversion overflows
+    st.sampled_from([[enc("int", 1), enc("float", float("inf"))], [enc("int", 3), enc("str", "1e999")],
+                     [enc("int", 1), enc("str", "inf")], [enc("float", 1.5), enc("int", 2 ** 1024)],
+                     [enc("int", 2), enc("float", float("nan"))], [enc("bool", True), enc("str", "maybe")],
+                     [enc("date", "2020-01-01"), enc("str", "2020-13-45")]]).map(lambda v: enc("list", v)),
     st.just(enc("dict", {})), st.just(enc("dict", {"a": 1})),
     st.integers(0, 1).map(lambda i: enc("prop", i)),
     st.just(enc("set", [1, 2])), st.just(enc("bytes", "ab")), st.just(enc("gen", [1, 2])),
@@ -123,7 +130,7 @@ def decode(x, props=None):
 OPS = ["ctor", "ctor", "set_values", "set_values", "set_dtype", "set_dtype", "set_dtype_invalid",
        "append", "append", "extend", "extend", "insert", "setitem", "setitem", "remove",
        "merge", "clone", "reassign", "typed_set", "typed_set", "typed_append", "typed_extend",
-       "set_dtype_none"]
+       "set_dtype_none", "ctor_spelled", "set_dtype_spelled", "typed_set_spelled"]
 
 STEP = st.tuples(st.sampled_from(OPS), st.integers(0, 1), INPUT, st.sampled_from(ALL_DTYPES),
                  st.integers(-2, 6), st.booleans(), st.booleans()).map(list)
@@ -145,13 +152,20 @@ def histories(draw, max_steps=14):
 # ------------------------------------------------------------------------------------
 # oracle helpers
 
+def spelled(dtype, k):
+    """Another accepted spelling of a canonical data type name."""
+    alias = {"string": "str", "boolean": "bool"}
+    options = [dtype.upper(), dtype.capitalize(), alias.get(dtype, dtype.title())]
+    return options[k % 3]
+
+
 def canonical_dtype(d):
     if d is None:
         return True
     if not isinstance(d, str):
         return False
     name = str.__str__(d)
-    if name in CANON_DTYPES:
+    if name in CANON_DTYPES or name in ("str", "bool"):
         return True
     parts = name.split("-")
     return len(parts) == 2 and parts[1] == "tuple" and parts[0].isdigit() and int(parts[0]) >= 1 \
@@ -280,6 +294,11 @@ def run_history(history, want=("values",), only=None):
         before_ident = snap.identity([p, other, sec]) if "atomic" in want else None
         had_values = len(p.values) > 0
         dt_arg = getattr(DType, dtype) if (member and dtype in CANON_DTYPES) else dtype
+        if op.endswith("_spelled"):
+            # data type names are not case sensitive and have two documented short forms
+            op = op[:-len("_spelled")]
+            dt_arg = spelled(dtype, idx)
+            classes.append("dtype_arg:spelled")
         raised = None
         created = None
         try:
